@@ -128,6 +128,14 @@ Theorem c16_history_wf : forall keep hs t,
 Proof. exact history_wf. Qed.
 Print Assumptions c16_history_wf.
 
+(* Save of a slice: the table stays well-formed and every element gets a record handed back.  What
+   the elements hold afterwards (values, keys handed back, other rows untouched) is tied by the
+   correspondence and by C16_Spec.spec_slice evaluated on gorm's outputs only: PARTIAL. *)
+Theorem c16_save_slice_wf_len : forall t now vs, wf t ->
+  wf (fst (save_slice_run t now vs)) /\ length (snd (save_slice_run t now vs)) = length vs.
+Proof. exact save_slice_wf_len. Qed.
+Print Assumptions c16_save_slice_wf_len.
+
 (* ---- the specification the checker evaluates on gorm's outputs holds of the model's own output ---- *)
 (* for every well-formed table, clock value, chain and finisher of the domain (type-correct values,
    key-value form alone, Attrs/Assign on data columns, conditions on key/data columns with positive
